@@ -127,7 +127,7 @@ func (m *MockMQ) Subscribe(ns string, cb mq.Response) (mq.Unsubscriber, error) {
 	s := &mqSub{m: m, ns: ns, cb: cb}
 	m.subs[ns] = s
 	kind, n, c := nsParts(sns)
-	w.logAdd(Rec{"e": "msub", "ns": sns, "kind": kind, "n": n, "c": c, "dup": dup, "bad": !validSubject(ns)})
+	w.logAdd(Rec{"e": "msub", "ns": sns, "kind": kind, "n": n, "c": c, "dup": dup, "bad": !validSubject(ns), "rawcid": strings.Contains(ns, "{cid}")})
 	return s, nil
 }
 
@@ -160,7 +160,7 @@ func (m *MockMQ) SendRequest(subj string, payload []byte, cb mq.Response) {
 		IsHTTP bool            `json:"isHttp"`
 	}
 	json.Unmarshal(payload, &p)
-	r.query = p.Query
+	r.query = w.symText(p.Query) // a {cid} tag expanded in the query appears as the connection symbol
 	i := strings.IndexByte(subj, '.')
 	typ, rest := "other", ""
 	if i > 0 {
@@ -198,7 +198,7 @@ func (m *MockMQ) SendRequest(subj string, payload []byte, cb mq.Response) {
 	r.tooLong = len(subj)+7+22 > maxControlLine
 	rec := Rec{"e": "mreq", "k": r.k, "t": r.typ, "n": r.sname, "q": r.query, "key": key(r.sname, r.query), "meth": r.meth,
 		"c": r.csym, "tok": tok, "http": p.IsHTTP, "subj": w.symText(subj), "bad": !validSubject(subj),
-		"closed": m.closed, "long": r.tooLong}
+		"closed": m.closed, "long": r.tooLong, "rawcid": strings.Contains(subj, "{cid}") || strings.Contains(p.Query, "{cid}")}
 	w.logAdd(rec)
 	if !m.closed {
 		m.pending = append(m.pending, r)
